@@ -10,8 +10,9 @@ Bind:   (code -> spec) real rod elements (Quaternion and R12 interpolation, disp
         parameters xi (nodal and in between): per coordinate direction of q_e and u_e one record with the columns of _deval, r_OP_q,
         A_IB_q, v_P_q, J_P, J_P_q, B_J_R; per node and quaternion / angular velocity component one record with q_dot, q_dot_q, q_dot_u,
         g_S, g_S_q (all interpolations incl. SE3).  TLC recomputes every record.
-        Float supplements on the same rods: q_dot is linear in u and q_dot_u its matrix; M symmetric positive semidefinite,
-        E_kin = u^T M u / 2, gyroscopic forces power-free.
+        Float supplements: q_dot is linear in u and q_dot_u its matrix; M symmetric positive semidefinite, E_kin = u^T M u / 2,
+        gyroscopic forces power-free (also on rods with graded and curved references, whose element matrices differ); the SE(3)
+        family's cross-section Jacobians against central differences (outside the rational core).
         The element's weak form (f_int_el / f_int_el_qe of the displacement-based rods, W_c_el la_c / Wla_c_el_qe / c_el / c_el_qe of
         the mixed rods) is a sum over quadrature points of expressions in those quantities; it is recorded from rods whose abscissae
         are rational (the genuine one-point rule of the linear elements; for the quadratic elements rational abscissae are written
@@ -37,14 +38,14 @@ from .c08 import fr, fv, resid, quat_pool, iv, NotRational
 XIS = [0.0, 0.25, 0.5, 0.75, 1.0, 0.125, 0.625]
 
 
-def make_rod(interp, mixed, degree, rng):
+def make_rod(interp, mixed, degree, rng, A0=None, constraints=None):
     from cardillo.rods import RectangularCrossSection, Simo1986, CrossSectionInertias
     from cardillo.rods.cosseratRod import make_CosseratRod
 
-    Rod = make_CosseratRod(interpolation=interp, mixed=mixed, polynomial_degree=degree)
+    Rod = make_CosseratRod(interpolation=interp, mixed=mixed, polynomial_degree=degree, constraints=constraints)
     cs = RectangularCrossSection(0.1, 0.2)
     mat = Simo1986(np.array([5.0, 1.0, 1.0]), np.array([0.5, 2.0, 2.0]))
-    A0 = octahedral_group()[rng.randrange(24)].astype(float)
+    A0 = octahedral_group()[rng.randrange(24)].astype(float) if A0 is None else A0
     with warnings.catch_warnings():
         warnings.simplefilter("ignore")
         Q = Rod.straight_configuration(2, 2.0, r_OP0=iv(rng), A_IB0=A0)
@@ -206,7 +207,7 @@ def rationalise_quadrature(rod, mixed):
     return True
 
 
-def weak_records(ctx, rod, interp, mixed, rng, q, records, wheres, where):
+def weak_records(ctx, rod, interp, mixed, rng, q, records, wheres, where, value_only=False, la_c=None, out=None):
     """internal forces (displacement based) / W_c la_c and compliance residual (mixed) of every element and their q_e-Jacobians"""
     nn = rod.nnodes_element_r
     nq, nu = rod.nq_element, rod.nu_element
@@ -223,7 +224,7 @@ def weak_records(ctx, rod, interp, mixed, rng, q, records, wheres, where):
         qps = []
         if mixed:
             nla = rod.nnodes_element_la_c
-            la_ce = np.array([float(rng.randint(-2, 3)) for _ in range(rod.nla_c_element)])
+            la_ce = np.array([float(rng.randint(-2, 3)) for _ in range(rod.nla_c_element)]) if la_c is None else np.asarray(la_c[rod.elDOF_la_c[el]], dtype=float)
         for i in range(rod.nquadrature):
             N = np.asarray(rod.N_r[el, i], dtype=float)
             if interp == "quat":
@@ -235,7 +236,10 @@ def weak_records(ctx, rod, interp, mixed, rng, q, records, wheres, where):
             if mixed:
                 Nla = np.asarray(rod.N_la_c[el, i], dtype=float).ravel()
                 lac = sum(Nla[n] * la_ce[rod.nodalDOF_element_la_c[n]] for n in range(nla))
-                g.update(n=fv(lac[:3]), m=fv(lac[3:]), Nla=fv(Nla))
+                # the independent stress fields carry the impressed components only (the others are constraint forces)
+                Bn = np.zeros(3); Bm = np.zeros(3)
+                Bn[rod.mixed_n] = lac[: rod.nmixed_n]; Bm[rod.mixed_m] = lac[rod.nmixed_n:]
+                g.update(n=fv(Bn), m=fv(Bm), Nla=fv(Nla))
             qps.append(g)
         if not ok:
             continue
@@ -243,25 +247,32 @@ def weak_records(ctx, rod, interp, mixed, rng, q, records, wheres, where):
                     r=[fv(qe[rod.nodalDOF_element_r[n]]) for n in range(nn)], P=[fv(p) for p in P],
                     v=[fv(np.zeros(3))] * nn, om=[fv(np.zeros(3))] * nn, Br=fv(np.zeros(3)))
         if mixed:
-            if rod.nmixed != 6:
-                raise tlc.MachineryError("mixed rod with constrained stress components: not handled")
+            full = rod.nmixed == 6
             f = np.asarray(rod.W_c_el(qe.copy(), el)) @ la_ce
             f_q = np.asarray(rod.Wla_c_el_qe(qe.copy(), la_ce.copy(), el)).reshape(nu, nq)
             c = np.asarray(rod.c_el(qe.copy(), la_ce.copy(), el)).ravel()
             c_q = np.asarray(rod.c_el_qe(qe.copy(), la_ce.copy(), el)).reshape(len(c), nq)
-            corder = [int(rod.nodalDOF_element_la_c[n][k]) for n in range(nla) for k in range(6)]
+            corder = [int(rod.nodalDOF_element_la_c[n][k]) for n in range(nla) for k in range(6)] if full else []
         else:
             f = np.asarray(rod.f_int_el(qe.copy(), el)).ravel()
             f_q = np.asarray(rod.f_int_el_qe(qe.copy(), el)).reshape(nu, nq)
         ks = list(range(nq))
         if not ctx.thorough:
             ks = sorted(rng.sample(ks, min(len(ks), 6)))
+        if value_only:
+            ks = [None]
+        if out is not None:
+            out.append(dict(el=el, f=f[order].copy(), c=c[corder].copy() if mixed and full else None))
         for k in ks:
-            node, comp = where_is(rod, k, "q")
-            rec = dict(base, dk="q", dnode=node, dcomp=comp)
-            outs = dict(f=f[order], df=f_q[order, k])
-            if mixed:
-                outs.update(c=c[corder], dc=c_q[corder, k])
+            node, comp = where_is(rod, k, "q") if k is not None else (0, 0)
+            rec = dict(base, dk="q" if k is not None else "none", dnode=node, dcomp=comp)
+            outs = dict(f=f[order])
+            if k is not None:
+                outs["df"] = f_q[order, k]
+            if mixed and full:
+                outs["c"] = c[corder]
+                if k is not None:
+                    outs["dc"] = c_q[corder, k]
             off = []
             for name, val in outs.items():
                 rec["o_" + name] = fv(val)
@@ -271,7 +282,7 @@ def weak_records(ctx, rod, interp, mixed, rng, q, records, wheres, where):
             rec["has"] = list(outs)
             rec["id"] = len(records) + 1
             records.append(rec)
-            wheres[rec["id"]] = dict(where, element=int(el), direction=f"q_e[{k}] = node {node} comp {comp}", quadrature_points=[float(x) for x in rod.qp[el]],
+            wheres[rec["id"]] = dict(where, element=int(el), direction=f"q_e[{k}] = node {node} comp {comp}" if k is not None else "(values)", quadrature_points=[float(x) for x in rod.qp[el]],
                                      **({"la_ce": la_ce.tolist()} if mixed else {}))
             if off:
                 wheres[rec["id"]]["_off_lattice"] = off
@@ -338,6 +349,76 @@ def inertia_checks(ctx, rod, q, u, where):
         ctx.violation(key + ":gyroscopic-power", f"the gyroscopic forces deliver the power {pw} at {where}", where)
 
 
+def make_graded_rod(interp, mixed, rng, nel=3, curved=False):
+    """a rod whose elements have different reference lengths (and, if curved, a spiral reference): the element matrices differ"""
+    import math
+    from cardillo import System
+    from cardillo.rods import RectangularCrossSection, Simo1986, CrossSectionInertias
+    from cardillo.rods.cosseratRod import make_CosseratRod
+    from cardillo.solver import SolverOptions
+
+    Rod = make_CosseratRod(interpolation=interp, mixed=mixed)
+    cs = RectangularCrossSection(0.1, 0.2)
+    mat = Simo1986(np.array([5.0, 1.0, 2.0]), np.array([0.5, 2.0, 3.0]))
+    if curved:
+        r = lambda xi: (0.5 + 2 * xi) * np.array([math.cos(2 * xi), math.sin(2 * xi), 0.0])
+        A = lambda xi: np.array([[math.cos(2 * xi + math.pi / 2), -math.sin(2 * xi + math.pi / 2), 0.0], [math.sin(2 * xi + math.pi / 2), math.cos(2 * xi + math.pi / 2), 0.0], [0, 0, 1.0]])
+    else:
+        r = lambda xi: np.array([2.0 * xi * xi, 0.0, 0.0])
+        A = lambda xi: np.eye(3)
+    with warnings.catch_warnings():
+        warnings.simplefilter("ignore")
+        Q = Rod.pose_configuration(nel, r, A)
+        rod = Rod(cs, mat, nel, Q=Q, q0=Q.copy(), cross_section_inertias=CrossSectionInertias(7.0, cs), name=f"rod{rng.randrange(10**9)}")
+        system = System()
+        system.add(rod)
+        system.assemble(options=SolverOptions(compute_consistent_initial_conditions=False))
+    return rod
+
+
+def se3_supplement(ctx, rng):
+    """SE(3) interpolation (transcendental, outside the rational core): the cross-section Jacobians against central differences"""
+    n = 0
+    for mixed in (False, True):
+        rod = make_rod("SE3", mixed, 1, rng)
+        name = f"SE3[p=1,mixed={mixed}]"
+        for _ in range(2):
+            q = np.asarray(rod.Q, dtype=float).copy()
+            for node in range(rod.nnodes_r):
+                q[rod.nodalDOF_r[node]] += np.array([rng.uniform(-0.3, 0.3) for _ in range(3)])
+            for node in range(rod.nnodes_p):
+                P = q[rod.nodalDOF_p[node]] + np.array([rng.uniform(-0.25, 0.25) for _ in range(4)])
+                q[rod.nodalDOF_p[node]] = P * rng.choice([1.0, 1.4, 0.8])
+            u = np.array([rng.uniform(-1, 1) for _ in range(rod.nu)])
+            for xi in (0.0, 0.3, 0.5, 0.85, 1.0):
+                el = rod.element_number(xi)
+                qe = q[rod.elDOF[el]].copy(); ue = u[rod.elDOF_u[el]].copy()
+                Br = np.array([rng.uniform(-1, 1) for _ in range(3)])
+                N, Nxi = rod.basis_functions_r(xi)
+                where = dict(rod=name, xi=xi, qe=qe.tolist(), ue=ue.tolist(), B_r_CP=Br.tolist())
+                funs = {"r_OP_q": (lambda x: np.asarray(rod.r_OP(0.0, x, xi, Br)), lambda: np.asarray(rod.r_OP_q(0.0, qe.copy(), xi, Br))),
+                        "A_IB_q": (lambda x: np.asarray(rod.A_IB(0.0, x, xi)), lambda: np.asarray(rod.A_IB_q(0.0, qe.copy(), xi))),
+                        "v_P_q": (lambda x: np.asarray(rod.v_P(0.0, x, ue, xi, Br)), lambda: np.asarray(rod.v_P_q(0.0, qe.copy(), ue.copy(), xi, Br))),
+                        "J_P_q": (lambda x: np.asarray(rod.J_P(0.0, x, xi, Br)), lambda: np.asarray(rod.J_P_q(0.0, qe.copy(), xi, Br))),
+                        "_deval:B_Gamma_bar_qe": (lambda x: np.asarray(rod._eval(x, xi, N, Nxi)[2]), lambda: np.asarray(rod._deval(qe.copy(), xi, N, Nxi)[6])),
+                        "_deval:B_Kappa_bar_qe": (lambda x: np.asarray(rod._eval(x, xi, N, Nxi)[3]), lambda: np.asarray(rod._deval(qe.copy(), xi, N, Nxi)[7]))}
+                for nm, (f, jac) in funs.items():
+                    try:
+                        J = jac()
+                        f0 = f(qe.copy())
+                        num = np.zeros(f0.shape + (len(qe),))
+                        h = 1e-6
+                        for k in range(len(qe)):
+                            e = np.zeros(len(qe)); e[k] = h
+                            num[..., k] = (f(qe + e) - f(qe - e)) / (2 * h)
+                        n += 1
+                        if not (np.max(np.abs(J.reshape(num.shape) - num)) <= 1e-6 * (1 + np.max(np.abs(num)))):
+                            ctx.violation(f"{name}:{nm}:central-difference", f"{nm} differs from central differences of its function by {np.max(np.abs(J.reshape(num.shape) - num)):.2e} at {where}", where)
+                    except Exception as ex:
+                        ctx.violation(f"{name}:{nm}:raises:{type(ex).__name__}", f"{type(ex).__name__}: {ex} at {where}", where)
+    return n
+
+
 def run(ctx):
     ctx.level = "model_checking"
     rng = ctx.rng
@@ -354,19 +435,23 @@ def run(ctx):
     records, wheres = [], {}
     counts = {}
     variants = [("Quaternion", "quat", False, 1), ("Quaternion", "quat", True, 2), ("R12", "r12", False, 1), ("R12", "r12", True, 2),
-                ("Quaternion", "quat", False, 2), ("R12", "r12", False, 2), ("SE3", None, False, 1)]
+                ("Quaternion", "quat", False, 2), ("R12", "r12", False, 2), ("SE3", None, False, 1),
+                # mixed rods with internal constraints: the independent stress fields carry the remaining (impressed) components only
+                ("Quaternion", "quat", True, 2, [0]), ("R12", "r12", True, 1, [0, 2]), ("Quaternion", "quat", True, 1, [0, 4, 5]), ("R12", "r12", True, 2, [1, 3])]
     nstates = 6 if ctx.thorough else 2
     nxi = 4 if ctx.thorough else 2
     from .c05 import oct_quats
     small_quats = oct_quats()
     substituted = []
-    for (interp_name, interp, mixed, degree) in variants:
-        name = f"{interp_name}[p={degree},mixed={mixed}]"
+    for var in variants:
+        (interp_name, interp, mixed, degree) = var[:4]
+        constraints = var[4] if len(var) > 4 else None
+        name = f"{interp_name}[p={degree},mixed={mixed}" + (f",constraints={constraints}]" if constraints else "]")
         try:
-            rod = make_rod(interp_name, mixed, degree, rng)
+            rod = make_rod(interp_name, mixed, degree, rng, constraints=constraints)
             rod_w = None
             if interp is not None:
-                rod_w = make_rod(interp_name, mixed, degree, rng)      # a second rod of the family carries the weak-form records
+                rod_w = make_rod(interp_name, mixed, degree, rng, constraints=constraints)      # a second rod of the family carries the weak-form records
                 if rationalise_quadrature(rod_w, mixed):
                     substituted.append(name)
         except tlc.MachineryError:
@@ -386,6 +471,8 @@ def run(ctx):
                 qw_, _ = rod_state(rod_w, rng, small_quats)        # TLC's integers are 32 bit: the weak form squares the denominators once more
                 n = weak_records(ctx, rod_w, interp, mixed, rng, qw_, records, wheres, dict(rod=name, q=qw_.tolist()))
                 counts[name + ":weak-form"] = counts.get(name + ":weak-form", 0) + n
+                if constraints:
+                    continue        # the cross-section kinematics of these rods are those of the unconstrained ones
                 xis = [XIS[0], XIS[4]][: 1 + si % 2] + rng.sample(XIS[1:4] + XIS[5:], nxi)
                 for xi in xis:
                     Br = iv(rng, -1, 2)
@@ -399,6 +486,22 @@ def run(ctx):
             except Exception as ex:
                 ctx.violation(f"{name}:raises:{type(ex).__name__}", f"{type(ex).__name__}: {ex} at {where}", where)
     t_rec = _t.time() - ctx.t0
+    # inertia terms on rods whose elements differ (graded and curved references), all families; SE(3) cross-sections in floats
+    ngraded = 0
+    for interp_name in ("Quaternion", "R12", "SE3"):
+        for mixed in (False, True):
+            for curved in (False, True):
+                name = f"{interp_name}[mixed={mixed},graded{',curved' if curved else ''}]"
+                try:
+                    rodg = make_graded_rod(interp_name, mixed, rng, curved=curved)
+                    qg, ug = rod_state(rodg, rng, quats)
+                    inertia_checks(ctx, rodg, qg, ug, dict(rod=name, q=qg.tolist(), u=ug.tolist()))
+                    ngraded += 1
+                except Exception as ex:
+                    ctx.violation(f"{name}:raises:{type(ex).__name__}", f"{type(ex).__name__}: {ex}", {"rod": name})
+    nse3 = se3_supplement(ctx, rng)
+    counts["graded rods (inertia)"] = ngraded
+    counts["SE3 central differences"] = nse3
     if not records:
         raise tlc.MachineryError("no rod records produced")
     tests = []
@@ -406,7 +509,7 @@ def run(ctx):
     e2 = copy.deepcopy(next(r for r in records if r["kind"] == "X" and "dJP" in r["has"])); e2["id"] = -1; e2["o_dJP"][-1][0][0] += 977; tests.append(e2)
     e3 = copy.deepcopy(next(r for r in records if r["kind"] == "K" and r["dk"] == "u")); e3["id"] = -2; e3["o_dqd"][1][0] += 977; tests.append(e3)
     e4 = copy.deepcopy(next(r for r in records if r["kind"] == "W" and r["form"] == "db")); e4["id"] = -3; e4["o_df"][-1][0] += 977; tests.append(e4)
-    e5 = copy.deepcopy(next(r for r in records if r["kind"] == "W" and r["form"] == "mixed")); e5["id"] = -4; e5["o_dc"][0][0] += 977; tests.append(e5)
+    e5 = copy.deepcopy(next(r for r in records if r["kind"] == "W" and r["form"] == "mixed" and "dc" in r["has"])); e5["id"] = -4; e5["o_dc"][0][0] += 977; tests.append(e5)
     bad, rts = batch_validate_parallel(ctx, "RodKinematics", tests + records, {"Mode": '"trace"', "Impl": '"intended"', "Thin": "TRUE"}, "rk_trace")
     for tid in (0, -1, -2, -3, -4):
         if bad.pop(tid, None) is None:
